@@ -485,6 +485,9 @@ func checkC06(c *Ctx, r *Report, tier string) {
 	cachedSnapshotIsTheWrittenOne(c, r, "C06.R12")
 	persistOrder(c, r, "C06.R12")
 	snapshotAndCompactionAtomic(c, r, "C06.R12")
+	r.Rule("C06.R13", "Entries agrees with the reference on sizes and contents: the size limit is measured with Entry.Size() of the decoded entry; decoded entries own their payload bytes", 2)
+	sizeLimitMeasuresEntries(c, r, "C06.R13")
+	decodedEntriesOwnTheirBytes(c, r, "C06.R13")
 }
 
 // familyPrefix: what the constructor copies to offset 0 of its buffer.
